@@ -25,7 +25,9 @@ ID = "C19"
 EXTRACTORS = ["opcodes"]
 LEAN_MODULES = ["HalmosVerif.Props.C19"]
 LEAN_EXTRA_TARGETS = []
-RULE = ("a case = (byte string, chunking, construction route; routes include *views*: a template ByteVec patched in place by "
+RULE = ("every case also reads slices at far starts {2^20-33, 2^20-1, 2^20, 2^20+1, 2^32, 2^64, 2^255, 2^256-1}; CODECOPY/EXTCODECOPY "
+        "programs on the real SEVM with offsets inside / at / past / far past the end, result (mem[0:32] after the copy) compared "
+        "with Spec.Code.read; a case = (byte string, chunking, construction route; routes include *views*: a template ByteVec patched in place by "
         "set_byte/set_slice/__setitem__/set_word so that the first chunk is a truncated window, prefix and inner `slice` windows of "
         "larger buffers, slice-of-slice, and code assembled in memory by CODECOPY+MSTORE8/MSTORE+RETURN on the real SEVM): exhaustive strings over {STOP, 0x5b, PUSH1, PUSH2, PUSH32, JUMP, "
         "unknown byte} up to a length bound, with every split position (the `_fastcode` prefix ends at every offset), unknown "
@@ -366,12 +368,25 @@ class Mismatch(Exception):
     pass
 
 
+# code reads far beyond the end of the code: a large *start* is fine (zeros), only the *size* is limited
+FAR_STARTS = [(1 << 20) - 33, (1 << 20) - 1, 1 << 20, (1 << 20) + 1, 1 << 32, 1 << 64, 1 << 255, (1 << 256) - 1]
+
+
+def far_slices(rng, k=1):
+    out = []
+    for _ in range(k):
+        out.append((rng.choice(FAR_STARTS), rng.choice((1, 1, 2, 32, 33, 0))))
+    return tuple(out)
+
+
 def slice_grid(n, k):
     return [(s, z) for s in range(n + 2) for z in range(k + 1)]
 
 
 def check_case(ctx, case, rng, lean_pairs, small=True, extra_slices=()):
     """Queue the Lean requests for `case` and return a closure that compares once replies are in."""
+    if not small or rng.random() < 0.35:      # every medium/large case, a third of the small-scope ones
+        extra_slices = tuple(extra_slices) + far_slices(rng)
     c, names = case.build()
     envs, sigmas = valuations(rng, names, case.n)
     n = case.n
@@ -1515,6 +1530,117 @@ def _view_slices(case, rng):
 
 
 # --------------------------------------------------------------------------------------------------------------------
+# CODECOPY / EXTCODECOPY on the real SEVM: reads beyond the end of the code (also far beyond) copy zeros and continue
+
+def _push(v):
+    if v == 0:
+        return bytes([0x5F])
+    b = v.to_bytes((v.bit_length() + 7) // 8, "big")
+    return bytes([0x5F + len(b)]) + b
+
+
+CODECOPY_EXT_ADDR = 0xAAAA0001
+
+
+def codecopy_program(op, offset, size, dest, ext=b""):
+    """mem[0:32] = ff…ff ; (EXT)CODECOPY(dest, offset, size) ; MLOAD(0) ; STOP  -> final stack = [mem[0:32]]"""
+    code = bytes([0x7F]) + b"\xff" * 32 + bytes([0x5F, 0x52]) + _push(size) + _push(offset) + _push(dest)
+    code += (_push(CODECOPY_EXT_ADDR) + bytes([0x3C])) if op == "extcodecopy" else bytes([0x39])
+    code += bytes([0x5F, 0x51, 0x00])
+    return code
+
+
+def offset_class(offset, n):
+    if offset >= (1 << 20) - 33:
+        for nm, v in (("2^256-1", (1 << 256) - 1), ("2^255", 1 << 255), ("2^64", 1 << 64), ("2^32", 1 << 32)):
+            if offset >= v:
+                return "far:" + nm
+        return "far:2^20" + ("-" if offset < (1 << 20) else "+" if offset > (1 << 20) else "")
+    return "inside" if offset < n else ("at-end" if offset == n else "past-end")
+
+
+def codecopy_jobs(ctx, rng):
+    jobs = []
+    d = VERIF / "corpus" / ID
+    if d.is_dir():
+        for p in sorted(d.glob("*.json")):
+            try:
+                r = json.loads(p.read_text())
+            except Exception:  # noqa: BLE001
+                continue
+            r = r.get("replay", r)
+            if "codecopy" in r:
+                c = r["codecopy"]
+                jobs.append((c["op"], int(c["offset"], 16), c["size"], c["dest"], bytes.fromhex(c.get("ext", ""))))
+    ctx.count("sevm-codecopy:corpus", len(jobs))
+    exts = [bytes.fromhex("5b6001aabbccdd"), bytes.fromhex("7f" + "11" * 10), b"\x5b" * 40, b""]
+    for op in ("codecopy", "extcodecopy"):
+        for off in FAR_STARTS:
+            for size in (1, 32):
+                jobs.append((op, off, size, 0, exts[0]))
+    for _ in range(ctx.scale(120, 1200)):
+        op = rng.choice(("codecopy", "extcodecopy"))
+        ext = rng.choice(exts)
+        n = len(ext) if op == "extcodecopy" else 60
+        off = rng.choice(FAR_STARTS + [0, 1, 2, max(n - 1, 0), n, n + 1, max(n - 5, 0), 33, 34, rng.randrange(0, 80)])
+        dest = rng.choice((0, 0, 3, 31))
+        size = rng.choice((1, 2, 5, 29, 32, 33, 1000))
+        jobs.append((op, off, size, dest, ext))
+    return jobs
+
+
+def check_codecopy(ctx, job, reply, sevmdrv, sevm, args):
+    h = H()
+    op, offset, size, dest, ext = job
+    from halmos.utils import con_addr
+    code = codecopy_program(op, offset, size, dest, ext)
+    src = ext if op == "extcodecopy" else code
+    assert reply.startswith("ok "), reply
+    data = b"" if reply[3:] == "-" else bytes.fromhex(reply[3:])
+    mem = bytearray(b"\xff" * 32)
+    mem[dest: dest + len(data)] = data
+    expected = int.from_bytes(bytes(mem[:32]), "big")
+    cls = f"{op}:{offset_class(offset, len(src))}"
+    replay = {"codecopy": {"op": op, "offset": hex(offset), "size": size, "dest": dest, "ext": ext.hex()}}
+    try:
+        exs = list(sevm.run(sevmdrv.mk_ex(sevm, args, code, extra_code={con_addr(CODECOPY_EXT_ADDR): h["Contract"](ext)})))
+    except Exception as e:  # noqa: BLE001
+        ctx.violation(f"sevm-codecopy:{cls}:exception:{type(e).__name__}", f"SEVM.run raised {type(e).__name__}: {e} on {code.hex()}", replay)
+        return True
+    got = []
+    for ex in exs:
+        err = ex.context.output.error
+        if err is not None:
+            got.append(("err", type(err).__name__))
+        else:
+            st = [getattr(x, "value", x) for x in ex.st.stack]
+            got.append(("stop", tuple(v if isinstance(v, int) else "sym" for v in st)))
+    ctx.count("sevm-codecopy:" + cls)
+    ctx.case(("sevm-codecopy", op, offset, size, dest, ext))
+    if got != [("stop", (expected,))]:
+        what = got[0][1] if got and got[0][0] == "err" else "wrong-bytes"
+        ctx.violation(f"sevm-codecopy:{cls}:{what}",
+                      f"{op.upper()}(dest={dest}, offset={offset:#x}, size={size}) on code of {len(src)} bytes: the EVM copies "
+                      f"{data[:40].hex()}{'…' if len(data) > 40 else ''} and continues (mem[0:32] = {expected:#066x}); SEVM.run gave {got}",
+                      replay)
+        return True
+    return False
+
+
+def sevm_codecopy_section(ctx, rng, lean):
+    from vlib import sevmdrv
+    sevm, args = sevmdrv.mk_sevm()
+    jobs = codecopy_jobs(ctx, rng)
+    lines = []
+    for op, offset, size, dest, ext in jobs:
+        src = ext if op == "extcodecopy" else codecopy_program(op, offset, size, dest, ext)
+        lines.append(f"spec-read {src.hex() or '-'} {offset} {size}")
+    replies = lean.ask(lines)
+    for job, rep_ in zip(jobs, replies, strict=True):
+        check_codecopy(ctx, job, rep_, sevmdrv, sevm, args)
+
+
+# --------------------------------------------------------------------------------------------------------------------
 
 def run_cases(ctx, cases, rng, small, label, extra_slices_fn=None):
     lean = ctx.lean("Code")
@@ -1607,10 +1733,14 @@ def correspond(ctx):
     cases = []
     routes = ["bytes", "hex", "bytevec", "bvval", "hex0x"]
     idx = 0
+    hash_idx = 0
     for n in range(0, L + 1):
         for s in itertools.product(ALPHABET, repeat=n):
             has_unknown = any(b is None for b in s)
             for split in range(0, n + 1):
+                if ctx.tier == "quick" and not ctx.search and n == L and 0 < split < n \
+                        and not any(b in (0x60, 0x61, 0x7F) for b in s[max(0, split - 2): split]) and (hash_idx := hash_idx + 1) % 2:
+                    continue     # quick tier: at the longest length keep every split behind a PUSH (straddling) and every other one
                 for tag, pieces in chunkings(list(s), split):
                     if tag == "mixed" and n > Lmixed:
                         continue
@@ -1630,7 +1760,8 @@ def correspond(ctx):
             seen.add(k)
             uniq.append(c)
     ctx.extra["exhaustive"] = True
-    ctx.extra["exhaustive_scope"] = f"strings over {len(ALPHABET)} symbols up to length {L} x every split x 2 layouts (mixed layout up to {Lmixed})"
+    ctx.extra["exhaustive_scope"] = f"strings over {len(ALPHABET)} symbols up to length {L} x every split x 3 layouts (mixed layout up to {Lmixed}, symbolic-window layout up to {Lview}); "\
+        + ("in the quick tier, at the longest length, interior splits not preceded by a PUSH are halved" if ctx.tier == "quick" else "")
     run_cases(ctx, uniq, rng, True, "exhaustive")
 
     _lap(ctx, "exhaustive")
@@ -1640,7 +1771,7 @@ def correspond(ctx):
     _lap(ctx, "views")
     # 1b. random sample of the next lengths of the small scope (beyond the exhaustive bound)
     more = []
-    for _ in range(ctx.scale(800, 6000)):
+    for _ in range(ctx.scale(600, 6000)):
         n = rng.randrange(L + 1, 10)
         s = [rng.choice(ALPHABET + [0x5B, 0x60]) for _ in range(n)]
         split = rng.randrange(n + 1)
@@ -1652,7 +1783,7 @@ def correspond(ctx):
     combos = [(i, b) for i in range(32) for b in range(0x60, 0x80)]
     rng.shuffle(combos)
     p32 = []
-    for i, b in combos[: ctx.scale(160, 1024)]:
+    for i, b in combos[: ctx.scale(120, 1024)]:
         operand = bytearray(rng.choice((0x00, 0x00, 0x5B, 0x36)) for _ in range(32))
         operand[i] = b
         after = bytes([0x5B]) + bytes(rng.choice((0x00, 0x5B, 0x5B)) for _ in range(34))
@@ -1730,6 +1861,10 @@ def correspond(ctx):
     sevm_section(ctx, rng, lits, lean)
 
     _lap(ctx, "sevm")
+    # 4a. CODECOPY / EXTCODECOPY with offsets inside, at, past and far past the end of the code
+    sevm_codecopy_section(ctx, rng, lean)
+
+    _lap(ctx, "sevm-codecopy")
     # 4b. where execution continues after a taken jump (destinations include pc 0, the last byte, right after a PUSH32)
     sevm_trace_section(ctx, rng, lean)
 
@@ -1764,6 +1899,18 @@ def replay(ctx, data) -> bool:
         case = ViewCase(r["view"], bv=bv, expected=b"".join(v for k, v in pieces_of_bytevec(bv) if k == "c"))
         before = len(ctx.violations)
         run_cases(ctx, [case], ctx.rng, case.n <= 12, "replay")
+        for v in ctx.violations[before:]:
+            print(f"  {v['key']}: {v['what']}")
+        return len(ctx.violations) > before
+    if "codecopy" in r:
+        from vlib import sevmdrv
+        sevm, args = sevmdrv.mk_sevm()
+        c = r["codecopy"]
+        job = (c["op"], int(c["offset"], 16), c["size"], c["dest"], bytes.fromhex(c.get("ext", "")))
+        src = job[4] if job[0] == "extcodecopy" else codecopy_program(*job)
+        rep_ = ctx.lean("Code").ask([f"spec-read {src.hex() or '-'} {job[1]} {job[2]}"])[0]
+        before = len(ctx.violations)
+        check_codecopy(ctx, job, rep_, sevmdrv, sevm, args)
         for v in ctx.violations[before:]:
             print(f"  {v['key']}: {v['what']}")
         return len(ctx.violations) > before
